@@ -48,11 +48,33 @@ Fixpoint all_origins_eqb (a b : list model) : bool :=
 (* K05-setref: Element::set_reference_target updates reference_origins BEFORE the text write, which can still fail
    (the target path does not pass the reference type's check): the call returns an error, the element keeps its old
    text (or none), but it is now listed under the new path.  Decided by running the model. *)
+Definition pref_eqb (a b : pref) : bool :=
+  match a, b with
+  | PNone, PNone => true
+  | PModel x, PModel y => x =? y
+  | PElem x, PElem y => x =? y
+  | _, _ => false
+  end.
+Definition plink_eqb (w w' : world) (i : id) : bool :=
+  match option_map n_parent (w_nodes w i), option_map n_parent (w_nodes w' i) with
+  | Some a, Some b => pref_eqb a b
+  | None, None => true
+  | _, _ => false
+  end.
+
+(* K05-move-late: a move fails AFTER the moved element was unlinked and re-parented (make_unique_item_name or the
+   rewrite of a referrer fails: agent-c11's classes K11_move_noname / K11_move_refwrite): the call returns an error
+   and the element hangs below its new parent without being listed there.  Decided by running the model. *)
 Definition Known05 (w : world) (o : op) : bool :=
   match o with
   | OpSetRefTarget _ _ =>
     match run_op T tab_el tab_en check_fn LATEST root_attrs o w with
     | Val (ER _, w') => negb (all_origins_eqb (w_models w) (w_models w'))
+    | _ => false
+    end
+  | OpMove _ mv | OpMoveAt _ mv _ =>
+    match run_op T tab_el tab_en check_fn LATEST root_attrs o w with
+    | Val (ER _, w') => negb (plink_eqb w w' mv)
     | _ => false
     end
   | _ => false
@@ -70,6 +92,21 @@ Definition Pending05 (w : world) (o : op) : bool :=
 Definition Pending45 (w : world) (o : op) : bool :=
   match o with
   | OpCopy _ _ | OpCopyAt _ _ _ | OpMove _ _ | OpMoveAt _ _ _ => true
+  | OpRemoveFile m f => last_file w m f
+  | _ => false
+  end.
+
+(* the refined list: a move inside one model whose moved element is identifiable is covered *)
+Definition simple_move (w : world) (h mv : id) : bool :=
+  identifiable T w mv &&
+  match model_of h w, model_of mv w with
+  | Val (OK m1, _), Val (OK m2, _) => m1 =? m2
+  | _, _ => false
+  end.
+Definition Pending45m (w : world) (o : op) : bool :=
+  match o with
+  | OpCopy _ _ | OpCopyAt _ _ _ => true
+  | OpMove h mv | OpMoveAt h mv _ => negb (simple_move w h mv)
   | OpRemoveFile m f => last_file w m f
   | _ => false
   end.
